@@ -14,6 +14,7 @@ import (
 	"go/constant"
 	"go/token"
 	"go/types"
+	"math/big"
 	"sort"
 	"strings"
 
@@ -521,7 +522,7 @@ func (an *analyzer) run(fn *ssa.Function, params []aval, free []aval, depth int)
 						}
 					}
 				case *ssa.BinOp:
-					nv = evalBin(x.Op, get(x.X), get(x.Y))
+					nv = evalBinTyped(x, get(x.X), get(x.Y), res)
 				case *ssa.UnOp:
 					a := get(x.X)
 					switch {
@@ -530,7 +531,7 @@ func (an *analyzer) run(fn *ssa.Function, params []aval, free []aval, depth int)
 					case x.Op == token.NOT && a.k == kConst:
 						nv = cBool(!constant.BoolVal(a.c))
 					case x.Op == token.SUB && a.k == kConst:
-						nv = aval{k: kConst, c: constant.UnaryOp(token.SUB, a.c, 0)}
+						nv = aval{k: kConst, c: wrapInt(constant.UnaryOp(token.SUB, a.c, 0), x.Type())}
 					case x.Op == token.MUL:
 						nv = an.load(x, a, mem, escapes)
 					default:
@@ -695,6 +696,9 @@ func (an *analyzer) run(fn *ssa.Function, params []aval, free []aval, depth int)
 						nv = bot
 					case a.k == kConst:
 						nv = convertConst(a, x.Type())
+						if nv.k == kConst {
+							nv.c = wrapInt(nv.c, x.Type())
+						}
 					default:
 						nv = top
 					}
@@ -1313,4 +1317,89 @@ func (r *result) decidedEntry(b *ssa.BasicBlock, depth int) bool {
 		}
 	}
 	return n > 0
+}
+
+// intBits: width and signedness of a basic integer type (int/uint/uintptr are
+// taken as 64-bit; the 386 pass only changes untyped-constant folding done by
+// the compiler, not these run-time widths for the fixed-width types we care about).
+func intBits(t types.Type) (bits int, signed bool, ok bool) {
+	b, isB := t.Underlying().(*types.Basic)
+	if !isB || b.Info()&types.IsInteger == 0 {
+		return 0, false, false
+	}
+	switch b.Kind() {
+	case types.Int8:
+		return 8, true, true
+	case types.Int16:
+		return 16, true, true
+	case types.Int32:
+		return 32, true, true
+	case types.Int64, types.Int:
+		return 64, true, true
+	case types.Uint8:
+		return 8, false, true
+	case types.Uint16:
+		return 16, false, true
+	case types.Uint32:
+		return 32, false, true
+	case types.Uint64, types.Uint, types.Uintptr:
+		return 64, false, true
+	}
+	return 0, false, false
+}
+
+// wrapInt reduces an integer constant to the two's-complement range of t.
+func wrapInt(c constant.Value, t types.Type) constant.Value {
+	bits, signed, ok := intBits(t)
+	if !ok || c.Kind() != constant.Int {
+		return c
+	}
+	bi, ok := constant.Val(c).(*big.Int)
+	if !ok {
+		if i, isI := constant.Val(c).(int64); isI {
+			bi = big.NewInt(i)
+		} else {
+			return c
+		}
+	}
+	mod := new(big.Int).Lsh(big.NewInt(1), uint(bits))
+	r := new(big.Int).Mod(bi, mod) // [0, 2^bits)
+	if signed {
+		half := new(big.Int).Lsh(big.NewInt(1), uint(bits-1))
+		if r.Cmp(half) >= 0 {
+			r.Sub(r, mod)
+		}
+	}
+	return constant.Make(r)
+}
+
+// evalBinTyped: evalBin plus Go's fixed-width integer semantics (wrap-around
+// on + - *, truncated division, division by a constant zero is a hazard).
+func evalBinTyped(x *ssa.BinOp, a, b aval, res *result) aval {
+	if a.k == kConst && b.k == kConst && a.c.Kind() == constant.Int && b.c.Kind() == constant.Int {
+		if _, _, isInt := intBits(x.X.Type()); isInt {
+			switch x.Op {
+			case token.QUO, token.REM:
+				if constant.Sign(b.c) == 0 {
+					res.hazards = append(res.hazards, hazard{x, x, "integer division by zero"})
+					return bot
+				}
+				op := token.QUO_ASSIGN // integer division
+				if x.Op == token.REM {
+					op = token.REM
+				}
+				return aval{k: kConst, c: wrapInt(constant.BinaryOp(a.c, op, b.c), x.Type())}
+			case token.ADD, token.SUB, token.MUL:
+				return aval{k: kConst, c: wrapInt(constant.BinaryOp(a.c, x.Op, b.c), x.Type())}
+			case token.AND, token.OR, token.XOR, token.AND_NOT:
+				return aval{k: kConst, c: wrapInt(constant.BinaryOp(a.c, x.Op, b.c), x.Type())}
+			case token.SHL, token.SHR:
+				if s, ok := constant.Uint64Val(b.c); ok && s < 64 {
+					return aval{k: kConst, c: wrapInt(constant.Shift(a.c, x.Op, uint(s)), x.Type())}
+				}
+				return top
+			}
+		}
+	}
+	return evalBin(x.Op, a, b)
 }
